@@ -7,6 +7,8 @@ import FontVerif.Model.FtRound
 import FontVerif.Model.HintMath
 import FontVerif.Model.HintRound
 import FontVerif.Model.Scale
+import FontVerif.Model.HintMove
+import FontVerif.Model.FtMove
 namespace FontVerif.Drv.C03
 open FontVerif
 
@@ -42,6 +44,14 @@ def ftStateAfter (opcode sel : Int) : Option (Int × Int × Int × Int) :=
   else if opcode = 0x76 then let (p, ph, t) := FtRound.setSuperRound 0x4000 sel; some (6, p, ph, t)
   else if opcode = 0x77 then let (p, ph, t) := FtRound.setSuperRound 0x2D41 sel; some (7, p, ph, t)
   else none
+
+/-- graphics state for the MIRP/MIAP/MDRP commands: round state left by `opcode sel` (as above), then
+`cutin sw swci md flip`. -/
+def mkGs (st : Int × Int × Int × Int) (cutin sw swci md flip : Int) : HintMove.Gs :=
+  let (m, p, ph, t) := st
+  { mode := m, thr := t, ph := ph, per := p, cutin := cutin, sw := sw, swci := swci, md := md, autoFlip := flip ≠ 0 }
+
+def bit (flags k : Int) : Bool := flags / k % 2 = 1
 
 def pairs : List Int → Option (List (Int × Int))
   | [] => some []
@@ -94,6 +104,30 @@ def handle (cmd : String) (args : List String) : Option String :=
         | some (m, p, ph, t) => match HintRound.round m t ph p d with
           | none => "trap"
           | some r => s!"{p} {ph} {t} {r}"
+    -- MIRP / MIAP / MDRP value computation; the response is the point's final coordinate `cur + move`
+    -- (for MIAP the reference is the origin)
+    | "sk.mirp", [op, sel, cutin, sw, swci, md, flip, flags, same, c, org, cur] =>
+      (skStateAfter op sel).map fun st => match st with
+        | none => "trap"
+        | some st => optInt ((HintMove.mirp (mkGs st cutin sw swci md flip) (bit flags 4) (bit flags 8) (same ≠ 0) c org cur).map
+            fun mv => wrapI32 (cur + mv))
+    | "ft.mirp", [op, sel, cutin, sw, swci, md, flip, flags, same, c, org, cur] =>
+      (ftStateAfter op sel).map fun st =>
+        toString (cur + FtMove.mirp (mkGs st cutin sw swci md flip) (bit flags 4) (bit flags 8) (same ≠ 0) c org cur)
+    | "sk.miap", [op, sel, cutin, flags, c, cur] =>
+      (skStateAfter op sel).map fun st => match st with
+        | none => "trap"
+        | some st => optInt ((HintMove.miap (mkGs st cutin 0 0 0 0) (bit flags 1) c cur).map fun mv => wrapI32 (cur + mv))
+    | "ft.miap", [op, sel, cutin, flags, c, cur] =>
+      (ftStateAfter op sel).map fun st => toString (cur + FtMove.miap (mkGs st cutin 0 0 0 0) (bit flags 1) c cur)
+    | "sk.mdrp", [op, sel, sw, swci, md, flags, org, cur] =>
+      (skStateAfter op sel).map fun st => match st with
+        | none => "trap"
+        | some st => optInt ((HintMove.mdrp (mkGs st 0 sw swci md 0) (bit flags 4) (bit flags 8) org cur).map
+            fun mv => wrapI32 (cur + mv))
+    | "ft.mdrp", [op, sel, sw, swci, md, flags, org, cur] =>
+      (ftStateAfter op sel).map fun st =>
+        toString (cur + FtMove.mdrp (mkGs st 0 sw swci md 0) (bit flags 4) (bit flags 8) org cur)
     -- unhinted simple-glyph scaling: p u xMin lsb adv x0 y0 x1 y1 …  →  advance x0 y0 …
     | "sk.simple", p :: u :: xMin :: lsb :: adv :: rest =>
       (pairs rest).map fun pts => renderSimple (Scale.skSimple (Scale.skScale p u) ⟨pts, xMin, lsb, adv⟩)
